@@ -245,6 +245,9 @@ func mkScenario(s gen.Service, seed int64, idx int, concOnly bool) scenario {
 	}
 	if !concOnly && s.Special == "ssh" && idx < len(fx)+fixedSpecials(s) {
 		// fixed special cases: authenticated sessions with every accepted credential tried in turn
+		if idx-len(fx) >= 4 {
+			return scenario{Kind: "ssh", K: 1, Sub: 7700 + idx, Force: 8}
+		}
 		if idx-len(fx) >= 2 {
 			return scenario{Kind: "ssh", K: 1, Sub: 7700 + idx, Force: 7}
 		}
@@ -659,7 +662,7 @@ func (w *Workload) FixedCount() int { return len(fixedCases(w.Svc)) + fixedSpeci
 
 func fixedSpecials(s gen.Service) int {
 	if s.Special == "ssh" {
-		return 4
+		return 6
 	}
 	return 0
 }
